@@ -20,7 +20,7 @@
 From Coq Require Import List NArith Bool.
 From PyTrie.Base Require Import Bytes Result Nibbles Rlp Keccak.
 From PyTrie.Base Require Import AMap.
-From PyTrie.Hexary Require Import Raw Tree Tree_aux Tree_map Tree_unique TreeRun D D_read Refine_read Refine_write Refine_write_prune.
+From PyTrie.Hexary Require Import Raw Tree Tree_aux Tree_map Tree_unique TreeRun D D_read Refine_read Refine_write Refine_write_prune Refine_batch.
 From PyTrie.Hexary Require Tree_canon.
 Import ListNotations.
 
@@ -72,6 +72,23 @@ Proof.
     rewrite Hrun. cbn [snd]. apply Hroot; assumption.
 Qed.
 Print Assumptions C02_D.
+
+(* ... and after any history mixing direct writes with squash_changes blocks (committed or
+   aborted): the root is the Yellow-Paper root of the mapping left by the writes that took effect *)
+Theorem C02_D_batched : forall H BNH, (forall x, length (H x) = 32%nat) -> BNH = H (rlp_encode (RStr [])) ->
+  forall (prune : bool) (hs : list hop),
+  cf H (hist_bodies H (flat hs)) -> Forall (fun b => (blen b < 2 ^ 64)%N) (hist_bodies H (flat hs)) ->
+  let ops := map top_of (flat hs) in
+  forall J, good_bindings J -> (forall q, nibs_ok q = true -> lookup J q = spec_run ops q) ->
+  t_root (snd (hrun H BNH hs (empty_trie BNH prune))) = yp_root H J.
+Proof.
+  intros H BNH Hlen Hbnh prune hs Hcf Hsmall ops J HJ Hlook. destruct prune.
+  - destruct (Refine_batch.C01_D_pruning_batched H BNH Hlen Hbnh hs Hcf Hsmall) as (m & rc & Hrun & _ & _ & _ & _ & _ & Hroot).
+    rewrite Hrun. cbn [snd]. apply Hroot; assumption.
+  - destruct (Refine_batch.C01_D_nonpruning_batched H BNH Hlen Hbnh hs Hcf Hsmall) as (m & Hrun & _ & _ & _ & Hroot).
+    rewrite Hrun. cbn [snd]. apply Hroot; assumption.
+Qed.
+Print Assumptions C02_D_batched.
 
 (* non-vacuity, and external anchors for my reading of the Yellow Paper: ethereum/tests
    trieanyorder vectors evaluated with the real Keccak-256 *)
